@@ -141,6 +141,14 @@ pub mod tstd {
     /// the value left behind is `T::default()`, about which nothing is assumed
     pub assume_specification<T: Default>[core::mem::take::<T>](dest: &mut T) -> (r: T)
         ensures r == *old(dest);
+    /// std slice::sort: "sorts the slice ... stable"; the result is an uninterpreted function of the input with, for i32, the facts below
+    pub uninterp spec fn slice_sorted<T>(s: Seq<T>) -> Seq<T>;
+    pub assume_specification<T: Ord>[<[T]>::sort](s: &mut [T])
+        ensures final(s)@ == slice_sorted(old(s)@);
+    /// i32's Ord is the numeric order: the sorted slice is an ascending permutation of the input
+    pub broadcast axiom fn axiom_slice_sorted_i32(s: Seq<i32>)
+        ensures (#[trigger] slice_sorted(s)).len() == s.len(), slice_sorted(s).to_multiset() == s.to_multiset(),
+            forall|i: int, j: int| 0 <= i < j < s.len() ==> slice_sorted(s)[i] <= slice_sorted(s)[j];
     pub assume_specification<T>[<[T]>::reverse](s: &mut [T])
         ensures final(s)@ == old(s)@.reverse();
     pub assume_specification<T>[<[T]>::swap](s: &mut [T], a: usize, b: usize)
@@ -163,7 +171,7 @@ pub mod tstd {
         ensures #[trigger] slice_contains(s, x) == s.contains(x);
 
     pub broadcast group group_tstd {
-        axiom_slice_contains_eq, axiom_slice_contains_i32, axiom_slice_contains_usize, axiom_vec_into_iter_seq, axiom_cmp_min_i32,
+        axiom_slice_contains_eq, axiom_slice_contains_i32, axiom_slice_contains_usize, axiom_vec_into_iter_seq, axiom_cmp_min_i32, axiom_slice_sorted_i32,
     }
     pub uninterp spec fn into_iter_seq<T, I>(i: I) -> Seq<T>;
     pub assume_specification<T, A: Allocator, I: IntoIterator<Item = T>>[<Vec<T, A> as Extend<T>>::extend::<I>](v: &mut Vec<T, A>, iter: I)
